@@ -549,6 +549,15 @@ func (p *Program) sameExpr(a, b ssa.Value, depth int) bool {
 // minLenAtLeast: forward min-length fact for a byte slice value: is len(v) >= k provable from its construction?
 func (p *Program) minLenAtLeast(v ssa.Value, k int64) bool {
 	for _, o := range p.origins(v, originOpts{throughConvert: true, throughAssert: true}) {
+		// pointer to an array (the backing store of a composite literal): the length is in the type
+		if pt, ok := o.Type().Underlying().(*types.Pointer); ok {
+			if arr, ok := pt.Elem().Underlying().(*types.Array); ok {
+				if arr.Len() < k {
+					return false
+				}
+				continue
+			}
+		}
 		switch x := o.(type) {
 		case *ssa.Slice:
 			// x[:h] with constant h >= k  (len = h - lo)
